@@ -1238,26 +1238,36 @@ def u_coll_offpolicy(ctx):
 
     # ---- every environment must get its own key from reset() and iteration(): continuous actions
     def keys_one(j):
-        env, ref, tabs, tl = _coll_env(ctx, 100 + j, "box", n_starts=1)
-        E, S, cap, ls = [3, 2, 5][j % 3], 3, 16, 4
-        algo = SAC(buffer_size=cap * E, learning_starts=ls, num_envs=E, num_steps=S, batch_size=2, q_width_size=8, q_depth=1)
-        pol = MLPSACPolicy(env, key=ctx.key(600 + j), feature_size=4, width_size=8)
+        # odd j: DQN, whose iteration() is an override with its own key handling; with epsilon = 1 its
+        # actions are uniform draws, and 24 / 40 of them per environment make a chance coincidence of two
+        # environments' action sequences negligible (at most 2**-24 per pair)
+        which = "DQN" if j % 2 else "SAC"
+        if which == "DQN":
+            env, ref, tabs, tl = _coll_env(ctx, 100 + j, "discrete", n_starts=1)
+            E, S, cap, ls = [3, 2, 5][j % 3], 40, 64, 24
+            algo = DQN(buffer_size=cap * E, learning_starts=ls, num_envs=E, num_steps=S, batch_size=2)
+            pol = MLPQPolicy(env, key=ctx.key(600 + j), width_size=8, depth=1, epsilon=1.0)
+        else:
+            env, ref, tabs, tl = _coll_env(ctx, 100 + j, "box", n_starts=1)
+            E, S, cap, ls = [3, 2, 5][j % 3], 3, 16, 4
+            algo = SAC(buffer_size=cap * E, learning_starts=ls, num_envs=E, num_steps=S, batch_size=2, q_width_size=8, q_depth=1)
+            pol = MLPSACPolicy(env, key=ctx.key(600 + j), feature_size=4, width_size=8)
         cb = algo.consolidate_callbacks(None)
         st = eqx.filter_jit(lambda k: algo.reset(env, pol, key=k, callback=cb))(ctx.key(4000 + j))
         acts = np.asarray(st.step_state.buffer.actions)[:, :ls]
         ctx.monitor("key_independence_checks")
-        ctx.case({"check": "distinct-keys-reset", "E": E, "j": j, "h": _digest(acts)}, nontrivial=True, cls="offpolicy/reset-distinct-keys")
+        ctx.case({"check": "distinct-keys-reset", "algo": which, "E": E, "j": j, "h": _digest(acts)}, nontrivial=True, cls="offpolicy/reset-distinct-keys")
         if _pairwise_identical(acts):
-            ctx.violation("reset-gives-parallel-envs-the-same-key", {"E": E, "identical_env_pairs": _pairwise_identical(acts)})
+            ctx.violation("reset-gives-parallel-envs-the-same-key", {"algo": which, "E": E, "identical_env_pairs": _pairwise_identical(acts)})
         same = jax.tree.map(lambda x: jnp.broadcast_to(x[:1], x.shape) if isinstance(x, jax.Array) else x, st.step_state)
         st = eqx.tree_at(lambda s: s.step_state, st, same)
         st2 = eqx.filter_jit(lambda s, k: algo.iteration(s, key=k, callback=cb))(st, ctx.key(4500 + j))
         acts = np.asarray(st2.step_state.buffer.actions)[:, ls:ls + S]
         ctx.monitor("key_independence_checks")
-        ctx.case({"check": "distinct-keys-iteration", "E": E, "j": j, "h": _digest(acts)}, nontrivial=True,
+        ctx.case({"check": "distinct-keys-iteration", "algo": which, "E": E, "j": j, "h": _digest(acts)}, nontrivial=True,
                  cls="offpolicy/iteration-distinct-keys")
         if _pairwise_identical(acts):
-            ctx.violation("iteration-gives-parallel-envs-the-same-key", {"algo": "SAC", "E": E,
+            ctx.violation("iteration-gives-parallel-envs-the-same-key", {"algo": which, "E": E,
                                                                          "identical_env_pairs": _pairwise_identical(acts)})
 
     _guard(ctx, "offpolicy-keys", keys_one, ctx.n(2, 6))
